@@ -37,7 +37,9 @@ def dr_domain():
 def check_missing(ctx):
     prog = ctx.prog
     f = prog.func(RULES + '.__missing__')
-    t = Table(prog, f)
+    from ..dte import inline_helpers
+    t = Table(prog, f, inline=inline_helpers(prog, modules={POLICY}),
+              max_depth=4)
     subj, dom = dr_domain()
     W = ctx.where(f.module, f.node)
     key = f.params[1] if len(f.params) > 1 else 'key'
